@@ -135,15 +135,109 @@ def check_contiguous_index(chk, rule):
                 break
         ok = ok and n_reindex == 1 and not row_ops
     rule.require(ok, f"{gc.key}|reindex", gc.where(), f"_get_contiguous_datetime must return its input reindexed onto the contiguous hourly range and nothing else {row_ops or ''}")
+    sd, outs = set_data_outcomes(chk)
+    msgs = [m for o in outs for ob, m in judge_set_data(o) if ob == "order"]
+    rule.require(not msgs, f"{sd.key}|order", sd.where(), "_set_data must de-duplicate, then build the contiguous index, then interpolate: " + (msgs[0] if msgs else ""))
+
+
+# ---------------------------------------------------------------------------------------------- _set_data, interpreted
+def set_data_outcomes(chk):
+    """_HourlyData._set_data interpreted on recording values: what is returned (the pipeline as a term) and which in-place stores are
+    made, for electricity / non-electricity data and both outcomes of every data-dependent test."""
+    from engine.absint import AbsObj, ModuleEnv, Oracle, Sym, SymWorld, canon, explore, sym_root
+    from engine.pyinterp import Function, Interp, InterpRaised, Stub, StubCall, Unsupported
     sd = chk.repo.func(HOURLY_DATA, "_HourlyData._set_data")
-    lines = {}
-    for c in calls_in(sd.node):
-        f = unparse(c.func)
-        if f in ("remove_duplicates", "self._get_contiguous_datetime", "self._interpolate"):
-            lines.setdefault(f, c)
-    scfg = CFG(sd.node)
-    ok = len(lines) == 3
-    if ok:
-        s1, s2, s3 = (sd.module.enclosing_stmt(lines[k]) for k in ("remove_duplicates", "self._get_contiguous_datetime", "self._interpolate"))
-        ok = scfg.dominates(s1, s2) and scfg.dominates(s2, s3)
-    rule.require(ok, f"{sd.key}|order", sd.where(), "_set_data must de-duplicate, then build the contiguous index, then interpolate (each step on every path to the next)")
+    outs = []
+
+    class _Cols(Stub):
+        def __init__(self, cols):
+            self.cols = list(cols)
+
+        def __iter__(self):
+            return iter(self.cols)
+
+        def __contains__(self, k):
+            return k in self.cols
+
+        def __len__(self):
+            return len(self.cols)
+
+    for electric in (True, False):
+        orc = Oracle()
+
+        def run():
+            w = SymWorld(orc)
+            pd_ = sym_root(w, "pd")
+            np_ = sym_root(w, "np")
+
+            class Frame(Sym):
+                def __getattr__(self, name):
+                    if name == "columns":
+                        return _Cols(["temperature", "observed", "ghi"])
+                    if name == "index":
+                        return Sym(w, "attr", self, "index", classes={"pd.DatetimeIndex"})
+                    if name == "copy":
+                        me = self
+
+                        class _C(Stub):
+                            def _abs_call(self_, *a, **k):
+                                return Frame(w, "call", Sym(w, "attr", me, "copy"), (), ())
+                        return _C()
+                    return Sym.__getattr__(self, name)
+            data = Frame(w, "root", "data")
+            calls = []
+
+            def step(name):
+                def f(x, *a, **k):
+                    calls.append(name)
+                    return Sym(w, "call", sym_root(w, name), (x,), ())
+                return f
+            me = AbsObj({"_HourlyData"}, is_electricity_data=electric, warnings=[], disqualification=[], tz=None, _kwargs={}, _outputs=[])
+            for nm in ("_get_contiguous_datetime", "_interpolate", "_add_pv_start_date"):
+                setattr(me, nm, StubCall(step(nm)))
+            it = Interp(step_limit=50_000)
+            stand = {"pd": pd_, "np": np_, "remove_duplicates": StubCall(step("remove_duplicates")), "EEMeterWarning": StubCall(lambda **k: k.get("qualified_name"))}
+            for nm in ("_get_contiguous_datetime", "_interpolate", "_add_pv_start_date"):
+                stand[nm] = StubCall(step(nm))  # the steps may also be module-level functions
+            env = ModuleEnv(chk.repo, sd.module, it, stand)
+            try:
+                r = Function(sd.node, env, it)(me, data)
+            except InterpRaised as e:
+                return {"raises": e.exc_name}
+            return {"returns": canon(r), "effects": list(w.effects), "order": calls, "warnings": list(me.warnings)}
+        try:
+            for tr, res in explore(run, orc):
+                res = dict(res)
+                res.update({"electric": electric, "decisions": tr})
+                outs.append(res)
+        except Unsupported as e:
+            raise AnalysisError(f"{sd.key}: uses an operation outside the modelled subset: {e}")
+    return sd, outs
+
+
+PIPELINE = "_add_pv_start_date(_interpolate(_get_contiguous_datetime(remove_duplicates(data.copy()))))"
+
+
+def judge_set_data(o):
+    bad = []
+    ctx = f"({'electricity' if o['electric'] else 'non-electricity'} data, decisions {[(t[:50], v) for t, v in o['decisions']]})"
+    if "raises" in o:
+        return [("order", f"_set_data raises {o['raises']} on a well-formed frame {ctx}")]
+    if o["returns"] != PIPELINE:
+        bad.append(("order", f"_set_data must return the copy of its input passed through remove_duplicates, then _get_contiguous_datetime, then _interpolate, then _add_pv_start_date; it returns `{o['returns'][:200]}` {ctx}"))
+    stores = [e for e in o["effects"] if e[0] == "setitem"]
+    other = [e for e in o["effects"] if e[0] == "setattr" and e[2] != "index"]
+    want = ("setitem", "data.copy().loc", "((data.copy()['observed'] == 0), 'observed')", "np.nan")
+    if o["electric"]:
+        if want not in stores:
+            bad.append(("zero", f"for electricity data zero usage must become missing: `copy.loc[copy['observed'] == 0, 'observed'] = np.nan`; stores found {stores} {ctx}"))
+        extra = [e for e in stores if e != want]
+    else:
+        extra = stores
+    if extra:
+        bad.append(("zero", f"values are overwritten beyond the zero-usage rule: {extra} (only `observed == 0` of electricity data may be blanked, in the observed column, on the copy) {ctx}"))
+    if any(not e[1].startswith("data.copy()") for e in o["effects"]):
+        bad.append(("copy", f"_set_data writes into the caller's frame: {[e for e in o['effects'] if not e[1].startswith('data.copy()')]} {ctx}"))
+    if other:
+        bad.append(("zero", f"unexpected attribute stores {other} {ctx}"))
+    return bad
